@@ -54,7 +54,8 @@ def is_proj(t, name):
     return t["k"] == "proj" and t.get("trait") == FORM and t.get("name") == name
 
 
-def check_config(chk, prog, cfg):
+def check_config(chk, prog, cfg, only=None):
+    """`only`: restrict to the IntoPortable impls of these self-type ADT paths (a property that depends on one conversion only)"""
     chk.rule("R2.1", "every IntoPortable impl is a field-wise homomorphism: output field k is built from input field k "
              "(and the registry) by the transfer function of k's declared type; nothing else flows in, no adapter")
     chk.rule("R2.2", "TypeDef::into_portable is variant-preserving (arm V builds variant V through From<TypeDefV>)")
@@ -64,6 +65,8 @@ def check_config(chk, prog, cfg):
     chk.count("into_portable_impls", len(impls))
     for imp in impls:
         st = prog.ty(imp["self_ty"])
+        if only is not None and st.get("d") not in only:
+            continue
         fns = [it for it in imp["items"] if it["kind"].startswith("Fn") and it["name"] == "into_portable"]
         if not fns:
             chk.anchor_missing("into_portable in " + imp["id"])
@@ -108,7 +111,8 @@ def check_config(chk, prog, cfg):
             chk.expect(all_ok, "R2.1", "impl:" + short, b.where(), "%d field(s)" % len(adt["variants"][0]["fields"]), cfg)
         else:
             check_enum(chk, prog, b, adt, st, rt, cfg)
-    check_helpers(chk, prog, cfg)
+    if only is None:
+        check_helpers(chk, prog, cfg)
 
 
 def lam_ok(prog, b, lam, elem_ty, REG, creg_is_upvar=False):
